@@ -434,8 +434,8 @@ def run(ctx):
 
     ok_proofs = ctx.check_props(extra=["theories/Corr/Corr_C13.v"])
     rng = ctx.rng
-    n_good = 330 if ctx.quick else 2400
-    n_bad = 90 if ctx.quick else 480
+    n_good = 270 if ctx.quick else 2400
+    n_bad = 70 if ctx.quick else 480
     n_interp = 3 if ctx.quick else 4
     gen = Gen(rng, World)
     if not ctx.quick:
